@@ -24,10 +24,12 @@ def main(tier, args):
     dl = int(os.environ.get("VERIF_DEADLINE_S", dl))
     jobs = []
     # single-process searches first, the sharded front-end sweeps fill the remaining slots and time
+    hist_parts = 2 if quick else 4       # the long-history lanes are partitioned by the first command
     for L in (21, 20, 1, 0):
-        jobs.append(("cmd:hist%d" % L, [cmd, str(L), str(cmd_depth)]))
+        for part in range(hist_parts if L >= 20 else 1):
+            jobs.append(("cmd:hist%d:%d" % (L, part), [cmd, str(L), str(cmd_depth), str(part), str(hist_parts if L >= 20 else 1)]))
     # navigation lane (directories, a directory cycle, deleted nodes; cd/ls/tree/pwd/help/paths/!!), partitioned by the first command
-    nav_depth, nav_parts, tok_len, tok_shards = (3, 2, 5, 1) if quick else (4, 6, 6, 2)
+    nav_depth, nav_parts, tok_len, tok_shards = (3, 3, 5, 1) if quick else (4, 6, 6, 2)
     for part in range(nav_parts):
         jobs.append(("cmd:nav:%d" % part, [cmd, "nav", str(nav_depth), str(part), str(nav_parts)]))
     # tokenizer lane: every line of length <= tok_len over {p a SPACE ' " ; !}
@@ -35,7 +37,8 @@ def main(tier, args):
         jobs.append(("cmd:tok:%d" % sh, [cmd, "tok", str(tok_len), str(sh), str(tok_shards)]))
     # the command, navigation and tokenizer lanes once more with echo and with quiet-mode sessions
     for opts in ("echo", "quiet"):
-        jobs.append(("cmd:hist20:%s" % opts, [cmd, "20", str(cmd_depth)], {"C13_OPTS": opts}))
+        for part in range(hist_parts):
+            jobs.append(("cmd:hist20:%d:%s" % (part, opts), [cmd, "20", str(cmd_depth), str(part), str(hist_parts)], {"C13_OPTS": opts}))
         for part in range(nav_parts):
             jobs.append(("cmd:nav:%d:%s" % (part, opts), [cmd, "nav", str(nav_depth), str(part), str(nav_parts)], {"C13_OPTS": opts}))
         jobs.append(("cmd:tok:0:%s" % opts, [cmd, "tok", str(tok_len if quick else tok_len - 1), "0", "1"], {"C13_OPTS": opts}))
@@ -103,8 +106,10 @@ def main(tier, args):
                    "'p %%s%%n%%s%%s' and the unknown command '%%n' (the executable's log stub really formats every record, so a client line used as a format string is a crash / ASan report)}; prefill lines are 22+ characters; each either in its own segment followed by a real loop pass or glued to the previous "
                    "command's segment, on prefilled histories of length {0,1,20,21}; oracle = one prompt per command line, probe argv of the addressed entry or an error message when it does not "
                    "exist, listing and stored history equal to the most recent 20 stored lines, exit ends the session on the next loop pass, no crash / sanitizer report / exception / hang. "
-                   "(1c, engine H, navigation lane) sequences of <=%d commands from 49 (cd / ls / tree / pwd / help with relative, absolute, '.', '..', above-root, cyclic, deleted and function paths; bare directory names; function "
-                   "paths 'd/f x', '/p a', 'e/top/p b', '../p c'; unknown names; paths THROUGH a function or a deleted node ('p/x', 'd/f/q y', 'z/q', 'ls d/x/y', 'cd z/..'); command words and help paths that resolve to the root ('/', '.', '..', 'help /', 'help .'); !!, !0, history) on a node tree with nested directories, a directory mounted below itself, the root mounted below, a deleted function node and a "
+                   "(1c, engine H, navigation lane) sequences of <=%d commands from 54 (cd / ls / tree / pwd / help with relative, absolute, '.', '..', above-root, cyclic, deleted and function paths; bare directory names; function "
+                   "paths 'd/f x', '/p a', 'e/top/p b', '../p c'; unknown names; paths THROUGH a function or a deleted node ('p/x', 'd/f/q y', 'z/q', 'ls d/x/y', 'cd z/..'); command words and help paths that resolve to the root ('/', '.', '..', 'help /', 'help .'); three function nodes that change the tree while the session may be inside the directory concerned: /drop_d and /drop_e delete the directory node d / d/e without unmounting it, "
+                   "/rm_d unmounts and deletes d (the reference tree carries the same changes: a deleted working directory or ancestor makes named paths from it unresolvable, '.', '..' and absolute paths still follow the "
+                   "stored names; error texts not judged); !!, !0, history) on a node tree with nested directories, a directory mounted below itself, the root mounted below, a deleted function node and a "
                    "deleted directory node that are still mounted, and two names that were mounted and unmounted again; oracle from a reference path model: a function path runs the probe once with the line's words, a path that does not resolve or addresses a deleted node "
                    "runs nothing and reports an error, cd / bare directory move the current directory (compared after every line, and through pwd's output), built-ins run no probe, one prompt per line, every line stored; "
                    "state adds the current directory. "
